@@ -305,6 +305,9 @@ func Handle(c *core.Check, st core.State) {
 							// has dynamic parts against an unknown value of a different (but conformable) type
 							sig = "unsound/equality/known-nested-dynamic-vs-unknown"
 						}
+						if tryCanOptimistic(small, e1.With(absScope, smallExtra), e1.With(cs, smallExtra), funcs) {
+							sig = "unsound/try-can/argument-fails-only-concretely"
+						}
 						if condDynamicArm(v.Node, absScope, funcs) || condArmTypeShift(v.Node, absScope, cs, funcs) ||
 							condDynamicArm(small, e1.With(absScope, smallExtra), funcs) || condArmTypeShift(small, e1.With(absScope, smallExtra), e1.With(cs, smallExtra), funcs) {
 							// root cause: a conditional with one dynamically-typed arm returns the other
@@ -378,33 +381,61 @@ func equalityNestedDynamic(n *e1.Node, absScope map[string]cty.Value, funcs map[
 // arms unify to differs between the two evaluations (same root cause as condDynamicArm).
 func condArmTypeShift(n *e1.Node, absScope, concScope map[string]cty.Value, funcs map[string]function.Function) bool {
 	found := false
-	var walk func(n *e1.Node)
-	walk = func(n *e1.Node) {
-		if found {
+	evalIn := func(sub *e1.Node, extra map[string]cty.Value) (cty.Value, bool) {
+		se, sd := hclsyntax.ParseExpression([]byte(e1.Render(sub, e1.Layout{})), "sub.hcl", hcl.InitialPos)
+		if sd.HasErrors() {
+			return cty.NilVal, false
+		}
+		val, vd := se.Value(&hcl.EvalContext{Variables: e1.With(concScope, extra), Functions: funcs})
+		return val, !vd.HasErrors()
+	}
+	e1.WalkBound(n, nil, evalIn, func(n *e1.Node, extra map[string]cty.Value) {
+		if found || n.K != "cond" {
 			return
 		}
-		if n.K == "cond" {
-			for i := 1; i <= 2; i++ {
-				se, sd := hclsyntax.ParseExpression([]byte(e1.Render(n.Sub[i], e1.Layout{})), "arm.hcl", hcl.InitialPos)
-				if sd.HasErrors() {
-					continue
-				}
-				func() {
-					defer func() { recover() }()
-					a, _ := se.Value(&hcl.EvalContext{Variables: absScope, Functions: funcs})
-					cc, _ := se.Value(&hcl.EvalContext{Variables: concScope, Functions: funcs})
-					if !a.Type().Equals(cc.Type()) && (a.Type().HasDynamicTypes() || cc.Type().HasDynamicTypes()) {
-						found = true
-					}
-				}()
+		for i := 1; i <= 2; i++ {
+			se, sd := hclsyntax.ParseExpression([]byte(e1.Render(n.Sub[i], e1.Layout{})), "arm.hcl", hcl.InitialPos)
+			if sd.HasErrors() {
+				continue
 			}
+			func() {
+				defer func() { recover() }()
+				a, _ := se.Value(&hcl.EvalContext{Variables: e1.With(absScope, extra), Functions: funcs})
+				cc, _ := se.Value(&hcl.EvalContext{Variables: e1.With(concScope, extra), Functions: funcs})
+				if !a.Type().Equals(cc.Type()) && (a.Type().HasDynamicTypes() || cc.Type().HasDynamicTypes()) {
+					found = true
+				}
+			}()
 		}
-		for _, ch := range e1.EvaluableChildren(n) {
-			walk(ch)
+	})
+	return found
+}
+
+// tryCanOptimistic: an argument of try / can evaluates without error under the abstract scope but
+// fails under the concrete one (an unknown operand is converted optimistically, the concrete value
+// does not convert), and the abstract result is nevertheless wholly known (e.g. through the
+// short-circuit of a logical operator), so try / can commit to an answer.
+func tryCanOptimistic(n *e1.Node, absScope, concScope map[string]cty.Value, funcs map[string]function.Function) bool {
+	if n.K != "call" || (n.S != "try" && n.S != "can") {
+		return false
+	}
+	for _, arg := range n.Sub {
+		se, sd := hclsyntax.ParseExpression([]byte(e1.Render(arg, e1.Layout{})), "arg.hcl", hcl.InitialPos)
+		if sd.HasErrors() {
+			continue
+		}
+		hit := false
+		func() {
+			defer func() { recover() }()
+			_, ad := se.Value(&hcl.EvalContext{Variables: absScope, Functions: funcs})
+			_, cd := se.Value(&hcl.EvalContext{Variables: concScope, Functions: funcs})
+			hit = !ad.HasErrors() && cd.HasErrors()
+		}()
+		if hit {
+			return true
 		}
 	}
-	walk(n)
-	return found
+	return false
 }
 
 func condDynamicArm(n *e1.Node, absScope map[string]cty.Value, funcs map[string]function.Function) bool {
